@@ -151,6 +151,7 @@ type Machine struct {
 	snaps     []*snapshot
 	pendingNP []npRec
 	feasEvery int
+	gNow      *Term
 }
 
 type Observation struct {
@@ -193,7 +194,7 @@ func (m *Machine) concreteString(v Value) (string, bool) {
 
 func (m *Machine) newObject(v Value, t types.Type, name string) *Object {
 	m.objN++
-	return &Object{id: m.objN, val: v, typ: t, name: name}
+	return &Object{id: m.objN, val: v, typ: t, name: name, born: m.gNow}
 }
 
 func ptrTo(o *Object) *PtrV { return &PtrV{Alts: []PtrAlt{{TS.True, o, nil}}} }
@@ -591,7 +592,7 @@ func (m *Machine) callFn(fn *ssa.Function, bind []Value, args []Value, g *Term, 
 	}
 	m.stack = append(m.stack, fn)
 	if m.trace {
-		fmt.Fprintf(os.Stderr, "%s-> %s\n", strings.Repeat(" ", len(m.stack)), fn.String())
+		fmt.Fprintf(os.Stderr, "%s-> %s   [g=%.150s]\n", strings.Repeat(" ", len(m.stack)), fn.String(), g.String())
 	}
 	f.pending[fn.Blocks[0]] = []inEdge{{g: g}}
 	f.execRegion(nil)
@@ -796,6 +797,7 @@ func (f *Frame) execBlock(b *ssa.BasicBlock) {
 	}
 	for _, ins := range b.Instrs[np:] {
 		f.m.instrsRun++
+		f.m.gNow = f.g
 		f.exec(ins)
 		if f.g.IsFalse() {
 			return
